@@ -12,6 +12,7 @@ temporary directory, residues (resid, resname) read back from the written .itp; 
 antiparallel Watson-Crick complement; n residues without `dsdna`).
 """
 import os
+import sys
 import tempfile
 import pathlib
 
@@ -411,7 +412,13 @@ def e2e_judge(ctx, case, model, spec):
     model_obs = dict(ok=True, residues=[list(r) for r in model["residues"]]) if model["ok"] else dict(ok=False)
     ctx.correspond("gen_params-dsdna", dict(ok=impl["ok"], residues=impl.get("residues")),
                    dict(ok=model_obs["ok"], residues=model_obs.get("residues")), replay)
-    if spec["ok"]:
+    if not spec["ok"] and case["dsdna"]:
+        # "unknown residue names are rejected" - also when the completion is requested through gen_params
+        if impl["ok"]:
+            ctx.oracle_fail("gen-params-accepts-unknown-resname", "gen_params(dsdna=True) (%s) on the strand %s, which holds a "
+                            "residue name outside the base-pair table, returned normally and wrote %d residues %s"
+                            % (replay.get("entry", "function"), names, len(impl["residues"]), impl["residues"]), replay)
+    elif spec["ok"] or not case["dsdna"]:
         if case["dsdna"]:
             want = [[node[1], node[2]] for node in spec["graph"]["nodes"]]   # 2n residues
         else:
@@ -425,10 +432,126 @@ def e2e_judge(ctx, case, model, spec):
             ctx.oracle_fail(shape, "gen_params(dsdna=%s) on a strand of %d residues %s wrote %d residues %s, "
                             "want %s" % (case["dsdna"], n, names, len(impl["residues"]), impl["residues"], want),
                             replay)
-    ctx.case(("e2e", replay["source"], replay["letters"], replay["dsdna"]),
+    ctx.case(("e2e", replay["source"], replay["letters"], replay["dsdna"], replay.get("entry"), replay.get("history")),
              sample=dict(input=replay, names=names, result=impl),
              kind="gen_params/" + ("seq" if replay["source"] == "seq" else "seq_file"),
-             n=("2" if n == 2 else "3-12"), valid=spec["ok"])
+             e2e_entry=replay.get("entry", "function"), e2e_history=replay.get("history"),
+             e2e_names=replay.get("composition", "dna-letters"),
+             n=("1" if n == 1 else "2" if n == 2 else "3-12"), valid=spec["ok"])
+
+
+# residue NAMES through gen_params: known nucleotides, names outside the base-pair table (other polymers, RNA), mixes.
+# Both entry points (the function and the command `polyply gen_params`), both sequence sources, with and without the
+# flag, and with a history (a failed call before, the same output file written before).
+E2E_LIBS = ["parmbsc1", "martini3"]
+OTHER_NAMES = ["PEO", "PS", "P3HT"]
+
+
+def names_file(names, tmpdir, fname="names.txt"):
+    path = os.path.join(tmpdir, fname)
+    with open(path, "w") as handle:
+        for i in range(0, len(names), 4):
+            handle.write(" ".join(names[i:i + 4]) + "\n")
+    return path
+
+
+def e2e_names_case(ctx, source, names, dsdna, entry="function", history=None, composition="?"):
+    """source 'seq' | 'txt'; entry 'function' | 'cli'; history None | 'after-failed-call' | 'same-outfile-again'"""
+    from polyply.src.gen_itp import gen_params
+    from polyply.src.meta_molecule import MetaMolecule
+    import vermouth.forcefield
+    import subprocess
+    with tempfile.TemporaryDirectory() as tmpdir:
+        out = pathlib.Path(tmpdir) / "out.itp"
+        seq_path = names_file(names, tmpdir) if source == "txt" else None
+
+        def call(call_names, call_dsdna, call_path):
+            kwargs = dict(name="dna", outpath=out, inpath=[], lib=list(E2E_LIBS), dsdna=call_dsdna)
+            if source == "seq":
+                kwargs.update(seq=seq_strings(call_names), seq_file=None)
+            else:
+                kwargs.update(seq=None, seq_file=pathlib.Path(call_path))
+            gen_params(**kwargs)
+        if history == "after-failed-call":
+            try:                                   # a call that must fail: every name unknown, completion requested
+                call(["PEO", "PEO"], True, names_file(["PEO", "PEO"], tmpdir, "failed.txt"))
+            except Exception:  # pylint: disable=broad-except
+                pass
+        elif history == "same-outfile-again":
+            try:                                   # the same output name was written by an earlier, different call
+                call(["DG5", "DC", "DA3"], False, names_file(["DG5", "DC", "DA3"], tmpdir, "earlier.txt"))
+            except Exception:  # pylint: disable=broad-except
+                pass
+        try:
+            if entry == "cli":
+                # the command as a user types it, from a working directory that holds decoys with the names of the
+                # libraries and of the output
+                cwd = os.path.join(tmpdir, "cwd")
+                os.makedirs(os.path.join(cwd, "parmbsc1"))
+                with open(os.path.join(cwd, "dna.itp"), "w") as handle:
+                    handle.write("; decoy\n")
+                cmd = [sys.executable, os.path.join(common.REPO, "bin", "polyply"), "gen_params", "-name", "dna", "-lib"] + \
+                    E2E_LIBS + ["-o", str(out)]
+                cmd += ["-seq"] + seq_strings(names) if source == "seq" else ["-seqf", seq_path]
+                if dsdna:
+                    cmd.append("-dsdna")
+                proc = subprocess.run(cmd, cwd=cwd, stdout=subprocess.PIPE, stderr=subprocess.STDOUT, text=True, timeout=300,
+                                      env=dict(os.environ, PYTHONPATH=common.REPO))
+                if proc.returncode != 0 or not out.exists():
+                    raise RuntimeError("polyply gen_params exited %s" % proc.returncode)
+            else:
+                call(names, dsdna, seq_path)
+            impl = dict(ok=True, residues=read_itp_residues(out))
+        except Exception as err:  # pylint: disable=broad-except
+            impl = dict(ok=False, err=type(err).__name__ if entry != "cli" else "exit")
+    replay = dict(stream="e2e", source="seq" if source == "seq" else "names-txt", letters=",".join(names), dsdna=dsdna,
+                  entry=entry, history=history, composition=composition)
+    labels = [[] for _ in range(max(len(names) - 1, 0))]
+    reqs = [dict(op="genparams", source=("seq" if source == "seq" else "seq_file"), dsdna=dsdna,
+                 names=names, labels=labels, circ=None, first=0, resid0=1),
+            dict(op="spec", names=names, labels=labels, circ=None, first=0, resid0=1)]
+    return dict(replay=replay, names=names, impl=impl, reqs=reqs, dsdna=dsdna, resid0=1)
+
+
+def gen_e2e_names_cases(ctx):
+    rng = ctx.rng
+    from polyply.src.gen_dna import BASE_LIBRARY
+    inner = [k for k in BASE_LIBRARY if len(k) == 2]
+
+    def dna(n):
+        names = [rng.choice(inner) for _ in range(n)]
+        if n >= 2:
+            names[0] += "5"
+            names[-1] += "3"
+        return names
+    specs = []
+    for source in ("seq", "txt"):
+        for dsdna in (True, False):
+            n = rng.randint(2, 5)
+            block = [rng.choice(OTHER_NAMES)] * rng.randint(1, 3)
+            specs.append((source, block + [rng.choice(OTHER_NAMES)] * rng.randint(0, 2), dsdna, "all-unknown"))
+            if dsdna:       # (without the flag a mix of force-field families is a matter of the libraries, not of C19)
+                mixed = dna(n)
+                mixed[rng.randrange(n)] = rng.choice(OTHER_NAMES + ["A", "U", "DA53"])
+                specs.append((source, mixed, dsdna, "mixed"))
+            specs.append((source, dna(n), dsdna, "known"))
+    specs.append(("seq", ["PEO"], True, "all-unknown"))                     # a single unknown residue
+    specs.append(("txt", ["A", "C", "G", "U"], True, "all-unknown"))        # an RNA strand
+    out = [(src, names, dsdna, "function", None, comp) for src, names, dsdna, comp in specs]
+    # history: the judged call comes after a failed one / writes an output name used before
+    out.append(("seq", dna(3), True, "function", "after-failed-call", "known"))
+    out.append(("txt", ["PS", "PEO"], True, "function", "after-failed-call", "all-unknown"))
+    out.append(("txt", dna(4), True, "function", "same-outfile-again", "known"))
+    out.append(("seq", ["PEO", "PEO"], True, "function", "same-outfile-again", "all-unknown"))
+    # the command-level entry point
+    out.append(("seq", ["PEO"] * 3, True, "cli", None, "all-unknown"))
+    out.append(("txt", dna(3), True, "cli", None, "known"))
+    if ctx.thorough:
+        out.append(("txt", ["PS", "PS", "PEO"], True, "cli", None, "all-unknown"))
+        out.append(("seq", dna(2)[:1] + ["PEO"], True, "cli", None, "mixed"))
+        out.append(("seq", dna(4), False, "cli", None, "known"))
+    rng.shuffle(out)
+    return out
 
 
 def gen_e2e_cases(ctx):
@@ -450,9 +573,12 @@ def gen_e2e_cases(ctx):
 
 def run_e2e(ctx, specs):
     cases = []
-    for source, letters, dsdna in specs:
+    for spec in specs:
         try:
-            cases.append(e2e_case(ctx, source, letters, dsdna))
+            if len(spec) == 3:
+                cases.append(e2e_case(ctx, *spec))
+            else:
+                cases.append(e2e_names_case(ctx, *spec))
         except Exception as err:  # pylint: disable=broad-except
             ctx.tally(e2e_setup_failed=type(err).__name__)
     reqs = []
@@ -596,7 +722,7 @@ def run(ctx):
                                 "writer) keeps residue order, resids and resnames: observed through the written "
                                 ".itp, modelled only up to the input of MapToMolecule")
     run_cases(ctx, corpus_cases() + gen_cases(ctx) + gen_exhaustive_cases(ctx))
-    run_e2e(ctx, corpus_e2e_cases() + gen_e2e_cases(ctx))
+    run_e2e(ctx, corpus_e2e_cases() + gen_e2e_cases(ctx) + gen_e2e_names_cases(ctx))
 
 
 def replay(ctx, data):
@@ -610,7 +736,10 @@ def replay(ctx, data):
         inputs = [inp]
     specs = [(i["kind"], i["letters"], i["label_seed"], i.get("unknown_at")) for i in inputs
              if i.get("stream") != "e2e"]
-    e2e_specs = [(i["source"], i["letters"], i["dsdna"]) for i in inputs if i.get("stream") == "e2e"]
+    e2e_specs = [(i["source"], i["letters"], i["dsdna"]) if "entry" not in i else
+                 ("seq" if i["source"] == "seq" else "txt", i["letters"].split(","), i["dsdna"], i["entry"], i.get("history"),
+                  i.get("composition", "?"))
+                 for i in inputs if i.get("stream") == "e2e"]
     run_cases(ctx, specs)
     run_e2e(ctx, e2e_specs)
     for b in ctx.broken:
